@@ -745,7 +745,7 @@ def _seq_statement(form, pos):
     if form == 'logif/update':
         return [f'IF ({c}) VA = VA + {k + 4}']
     if form == 'logif/symcond':
-        return [f'IF (VA.GT.{k}) VA = {k // 2 + 5}']
+        return [f'IF (VA.GT.{k - 92}) VA = {k + 5}']  # true for some, false for other values left by position pos-1
     if form == 'block':
         return [f'IF ({c}) THEN', f'  VA = {k + 6}', 'ENDIF']
     if form == 'block/else':
@@ -2460,6 +2460,71 @@ _RT_STARTS = {
     'pheno RATE0': 'pheno with a RATE data column that is 0 on every record (bolus doses)',
 }
 _EXISTING_FEATURE = ('add_lag_time', 'add_bioavailability')
+_RT_STARTS_FIRST = tuple(_RT_STARTS)  # the starts of the jobs enumerated first (see gen_roundtrip_jobs)
+
+# start models added later (appended: the enumeration order and the case form of the jobs of the first three starts
+# are kept).  They are the pheno example model with another layout of the $OMEGA / $SIGMA records: the records a
+# later update has to keep, to rewrite in place or to split.  ETA(3) is an IIV on the residual error, ETA(4) on the
+# covariate effect, EPS(2), EPS(3) are an additive and a weight-proportional residual error.
+_RV_LAYOUTS = {
+    'pheno OMEGA BLOCK(3)': (3, 1, ['$OMEGA BLOCK(3)', ' 0.0309626 ; IIV_CL', ' 0.0011 ; COV_CL_VC', ' 0.031128 ; IIV_VC',
+                                    ' 0.0022 ; COV_CL_RUV', ' 0.0033 ; COV_VC_RUV', ' 0.09 ; IIV_RUV'], None),
+    'pheno OMEGA DIAG(3)': (3, 1, ['$OMEGA 0.0309626 ; IIV_CL', ' 0.031128 ; IIV_VC', ' 0.09 ; IIV_RUV'], None),
+    'pheno OMEGA BLOCK(2)+1': (3, 1, ['$OMEGA BLOCK(2)', ' 0.0309626 ; IIV_CL', ' 0.0011 ; COV_CL_VC', ' 0.031128 ; IIV_VC',
+                                      '$OMEGA 0.09 ; IIV_RUV'], None),
+    'pheno OMEGA BLOCK(3) SD CORR': (3, 1, ['$OMEGA BLOCK(3) STANDARD CORRELATION', ' 0.176 ; IIV_CL', ' 0.05 ; COV_CL_VC',
+                                            ' 0.1764 ; IIV_VC', ' 0.1 ; COV_CL_RUV', ' 0.15 ; COV_VC_RUV',
+                                            ' 0.3 ; IIV_RUV'], None),
+    'pheno SIGMA BLOCK(3)': (2, 3, None, ['$SIGMA BLOCK(3)', ' 0.0130865 ; SIGMA', ' 0.0005 ; COV_PROP_ADD', ' 0.02 ; SIGMA_ADD',
+                                          ' 0.0007 ; COV_PROP_WGT', ' 0.0009 ; COV_ADD_WGT', ' 0.03 ; SIGMA_WGT']),
+    'pheno OMEGA BLOCK(4)': (4, 1, ['$OMEGA BLOCK(4)', ' 0.0309626 ; IIV_CL', ' 0.0011 ; COV_CL_VC', ' 0.031128 ; IIV_VC',
+                                    ' 0.0022 ; COV_CL_RUV', ' 0.0033 ; COV_VC_RUV', ' 0.09 ; IIV_RUV', ' 0.0044 ; COV_CL_COV',
+                                    ' 0.0055 ; COV_VC_COV', ' 0.0066 ; COV_RUV_COV', ' 0.04 ; IIV_COV'], None),
+}
+_RT_STARTS.update({
+    'pheno OMEGA BLOCK(3)': 'pheno with a third eta (IIV on the residual error) and one $OMEGA BLOCK(3) with distinct values',
+    'pheno OMEGA DIAG(3)': 'pheno with a third eta and one diagonal $OMEGA record with 3 values',
+    'pheno OMEGA BLOCK(2)+1': 'pheno with a third eta, $OMEGA BLOCK(2) followed by a diagonal $OMEGA',
+    'pheno OMEGA BLOCK(3) SD CORR': 'pheno with a third eta and $OMEGA BLOCK(3) STANDARD CORRELATION',
+    'pheno SIGMA BLOCK(3)': 'pheno with three epsilons and one $SIGMA BLOCK(3) with distinct values',
+    'pheno OMEGA BLOCK(4)': 'pheno with four etas and one $OMEGA BLOCK(4) with distinct values',
+})
+_RV_STARTS_QUICK = list(_RV_LAYOUTS)[:5]
+# transformations that add or remove compartments (they renumber the compartments of the generated code)
+_RENUMBERING = ('set_first_order_absorption', 'set_zero_order_absorption', 'set_seq_zo_fo_absorption',
+                'set_instantaneous_absorption', 'set_transit_compartments_2', 'add_peripheral_compartment',
+                'set_peripheral_compartments_2', 'remove_peripheral_compartment')
+
+
+def _rv_transformations():
+    """transformations of the parameters and of the random effects (the second family of transformations of the
+    round trip; kept apart from _transformations(), whose order defines the recorded enumeration)"""
+    import pharmpy.modeling as pm
+
+    def scale_initial_estimates(m):
+        # covariance parameters x 1.25 (a scaled covariance matrix stays positive definite), thetas x 1.1 within bounds
+        cov = set(m.random_variables.parameter_names)
+        new = {}
+        for p in m.parameters:
+            if p.fix or p.init == 0:
+                continue
+            v = p.init * (1.25 if p.name in cov else 1.1)
+            if p.lower < v < p.upper:
+                new[p.name] = v
+        return pm.set_initial_estimates(m, new)
+
+    return {
+        'scale_initial_estimates': scale_initial_estimates,
+        'fix_covariance_parameters': lambda m: pm.fix_parameters(m, list(m.random_variables.parameter_names)),
+        'create_joint_distribution': pm.create_joint_distribution,
+        'split_joint_distribution': pm.split_joint_distribution,
+        'remove_iiv_first': lambda m: pm.remove_iiv(m, [m.random_variables.etas.names[0]]),
+        'remove_iiv_last': lambda m: pm.remove_iiv(m, [m.random_variables.etas.names[-1]]),
+        'add_iiv_TVCL': lambda m: pm.add_iiv(m, 'TVCL', 'exp'),
+        'set_iiv_on_ruv': pm.set_iiv_on_ruv,
+        'transform_etas_boxcox': pm.transform_etas_boxcox,
+        'add_covariate_effect_CL_APGR': lambda m: pm.add_covariate_effect(m, 'CL', 'APGR', 'exp'),
+    }
 
 
 def gen_roundtrip_jobs(tier):
@@ -2467,13 +2532,13 @@ def gen_roundtrip_jobs(tier):
     names = list(_transformations())
     jobs = [('pheno', seq) for seq in gen_roundtrip_cases(tier)]
     singles = [[]] + [[a] for a in names]
-    for start in list(_RT_STARTS)[1:]:
+    for start in _RT_STARTS_FIRST[1:]:
         if tier == 'thorough':
             jobs += [(start, seq) for seq in singles + [[a, b] for a in names for b in names]]
         else:
             jobs += [(start, seq) for seq in singles]
     # a transformation applied to a model that already has what it adds: twice in a row
-    for start in _RT_STARTS:
+    for start in _RT_STARTS_FIRST:
         for a in (names if start == 'pheno' or tier == 'thorough' else _EXISTING_FEATURE):
             if (start, [a, a]) not in jobs:
                 jobs.append((start, [a, a]))
@@ -2483,6 +2548,33 @@ def gen_roundtrip_jobs(tier):
             for b in _EXISTING_FEATURE:
                 if a != b and ('pheno', [a, b, a]) not in jobs:
                     jobs.append(('pheno', [a, b, a]))
+    # --- jobs added later (appended) ---
+    more = []
+    # two (thorough: also three) transformations that renumber the compartments, one after the other
+    more += [('pheno', [a, b]) for a in _RENUMBERING for b in _RENUMBERING]
+    if tier == 'thorough':
+        more += [('pheno', [a, b, c]) for a in _RENUMBERING for b in _RENUMBERING for c in _RENUMBERING]
+    # parameter / random effect transformations, on pheno and on the starts with other $OMEGA / $SIGMA layouts
+    rv = list(_rv_transformations())
+    rv_starts = list(_RV_LAYOUTS) if tier == 'thorough' else _RV_STARTS_QUICK
+    for start in ['pheno'] + rv_starts:
+        more += [(start, [])] + [(start, [a]) for a in rv]
+    # structural transformations of a model whose random effect records have to be kept
+    for start in (rv_starts if tier == 'thorough' else rv_starts[:1]):
+        more += [(start, [a]) for a in _RENUMBERING]
+    # a second transformation after one that created, split or rewrote the records
+    joint = ('create_joint_distribution', 'split_joint_distribution')
+    for start in rv_starts:
+        if tier == 'thorough':
+            more += [(start, [a, b]) for a in rv for b in rv]
+        elif start in rv_starts[:2]:
+            more += [(start, [a, b]) for a in joint for b in rv] + [(start, [b, a]) for a in joint for b in rv]
+    if tier == 'thorough':
+        start = rv_starts[0]
+        more += [(start, [a, b]) for a in _RENUMBERING for b in rv] + [(start, [b, a]) for a in _RENUMBERING for b in rv]
+    for job in more:
+        if job not in jobs:
+            jobs.append(job)
     return jobs
 
 
@@ -2519,6 +2611,29 @@ def _rt_start(start):
         df['RATE'] = 0
         model = read_model_from_string('\n'.join(lines))
         return model.replace(dataset=df).update_source()
+    if start in _RV_LAYOUTS:
+        netas, neps, omega, sigma = _RV_LAYOUTS[start]
+        base = load_example_model('pheno')
+        lines = base.code.split('\n')
+
+        def replace(prefix, new):
+            k = [i for i, ln in enumerate(lines) if ln.startswith(prefix)]
+            assert k, prefix
+            lines[k[0] : k[-1] + 1] = new
+
+        if netas >= 3:
+            replace('Y = F + F*EPS(1)', ['Y = F + F*EPS(1)*EXP(ETA(3))'])
+        if netas >= 4:
+            replace('IF(APGR.LT.5) TVV', ['IF(APGR.LT.5) TVV = TVV*(1 + THETA(3)*EXP(ETA(4)))'])
+        if neps == 3:
+            replace('Y = F + F*EPS(1)', ['Y = F + F*EPS(1) + EPS(2) + WGT*EPS(3)'])
+        if omega is not None:
+            replace('$OMEGA', omega)
+        if sigma is not None:
+            replace('$SIGMA', sigma)
+        model = read_model_from_string('\n'.join(lines))
+        assert len(model.random_variables.etas.names) == netas and len(model.random_variables.epsilons.names) == neps
+        return model.replace(dataset=base.dataset).update_source()
     raise ValueError(start)
 
 
@@ -2789,8 +2904,13 @@ def _compare_models(m1, m2):
         out.append(('params', f'parameter names differ: only in model {sorted(set(p1) - set(p2))}, only '
                     f'in code {sorted(set(p2) - set(p1))}'))
     else:
+        # $OMEGA / $SIGMA elements have no bounds in NM-TRAN (a variance is non-negative by definition): the bounds
+        # of covariance parameters cannot be denoted by the code, so only initial estimate and fixedness are compared
+        cov = set(m1.random_variables.parameter_names) | set(m2.random_variables.parameter_names)
         for k in p1:
             a, b = p1[k], p2[k]
+            if k in cov:
+                a, b = (a[0], None, None, a[3]), (b[0], None, None, b[3])
             if not (close(a[0], b[0], 1e-6) and a[1] == b[1] and a[2] == b[2] and a[3] == b[3]):
                 out.append(('params', f'{k}: model (init, lower, upper, fix)={a}, code {b}'))
                 break
@@ -2861,6 +2981,45 @@ _RT_CLAUSE = {
 }
 
 
+# functions behind the parameter / random effect transformations (fid of a model that is ill-formed after one of them)
+_RV_FIDS = {
+    'scale_initial_estimates': 'src/pharmpy/modeling/parameters.py:set_initial_estimates',
+    'fix_covariance_parameters': 'src/pharmpy/modeling/parameters.py:fix_parameters',
+    'create_joint_distribution': 'src/pharmpy/modeling/parameter_variability.py:create_joint_distribution',
+    'split_joint_distribution': 'src/pharmpy/modeling/parameter_variability.py:split_joint_distribution',
+    'remove_iiv_first': 'src/pharmpy/modeling/parameter_variability.py:remove_iiv',
+    'remove_iiv_last': 'src/pharmpy/modeling/parameter_variability.py:remove_iiv',
+    'add_iiv_TVCL': 'src/pharmpy/modeling/parameter_variability.py:add_iiv',
+    'set_iiv_on_ruv': 'src/pharmpy/modeling/error.py:set_iiv_on_ruv',
+    'transform_etas_boxcox': 'src/pharmpy/modeling/parameter_variability.py:transform_etas_boxcox',
+    'add_covariate_effect_CL_APGR': 'src/pharmpy/modeling/covariate_effect.py:add_covariate_effect',
+}
+TIED_CLAUSE = ('the transformed model has a distinct parameter for every element of the lower triangle of each '
+               'covariance block (NM-TRAN cannot tie two elements of one block: no code can denote a model that does)')
+
+
+def _tied_covariance_elements(model):
+    """-> description of the first covariance block of the model in which one parameter stands at two places of the
+    lower triangle, or None"""
+    import sympy
+
+    for dist in model.random_variables:
+        names = list(dist.names)
+        if len(names) < 2:
+            continue
+        V = sympy.Matrix(dist.variance)
+        seen = {}
+        for i in range(len(names)):
+            for j in range(i + 1):
+                e = V[i, j]
+                if e.is_Symbol:
+                    if e.name in seen:
+                        return (f'parameter {e.name} is both cov({names[seen[e.name][0]]}, {names[seen[e.name][1]]}) and '
+                                f'cov({names[i]}, {names[j]})')
+                    seen[e.name] = (i, j)
+    return None
+
+
 def _check_roundtrip_case(job):
     """job = (start, sequence), or the sequence alone for the start pheno -> (nontrivial, [(fid, clause, detail)])"""
     import tempfile
@@ -2868,19 +3027,24 @@ def _check_roundtrip_case(job):
     from pharmpy.modeling import read_model, write_model
 
     _speedup()
-    tr = _transformations()
+    tr = dict(_rv_transformations())
+    tr.update(_transformations())
     start, seq = job if isinstance(job, tuple) else ('pheno', job)
     try:
         model = _rt_start(start)
     except Exception as exc:
         return (True, [(FID_UPDATE_SOURCE, 'checker: the start model of the round trip can be built',
                         f'{start}: {type(exc).__name__}: {str(exc)[:150]}')])
+    tag = ('' if start == 'pheno' else f'{start} ; ') + (' ; '.join(seq) or f'({start} unchanged)')
     try:
         for name in seq:
             model = tr[name](model)
+            if name in _RV_FIDS:
+                tied = _tied_covariance_elements(model)
+                if tied:  # no NM-TRAN code denotes this model: reported for the transformation that produced it
+                    return (True, [(_RV_FIDS[name], TIED_CLAUSE, f'{tag}: after {name}: {tied}')])
     except Exception:
         return (False, [])  # the sequence is not in the domain: a transformation did not succeed
-    tag = ('' if start == 'pheno' else f'{start} ; ') + (' ; '.join(seq) or f'({start} unchanged)')
     extra = []
     try:
         with tempfile.TemporaryDirectory() as d:
@@ -3251,7 +3415,18 @@ def bounded_codegen_roundtrip(tier='quick'):
             f'transformations from 2 more start models (moxo example model: oral ADVAN2 with ALAG1, IOV; pheno with '
             f'a RATE data column that is 0 on all records); every transformation twice in a row '
             f'{"from every start" if tier == "thorough" else "from pheno, add_lag_time / add_bioavailability twice in a row from every start and alternating (a ; b ; a) from pheno"} '
-            f'[{len(rt_jobs)} in all]; written to disk and read back, compared '
+            f'; all ordered pairs{" and triples" if tier == "thorough" else ""} of the {len(_RENUMBERING)} transformations that add or remove '
+            f'compartments (absorption, transit, peripheral compartments) from pheno; {len(_rv_transformations())} parameter / '
+            f'random effect transformations (scale initial estimates, fix covariance parameters, create / split joint '
+            f'distribution, remove first / last IIV, add IIV, IIV on RUV, Box-Cox, covariate effect) singly from pheno and '
+            f'from {len(_RV_LAYOUTS) if tier == "thorough" else len(_RV_STARTS_QUICK)} variants of pheno with other $OMEGA / $SIGMA layouts (3 etas in BLOCK(3), '
+            f'one diagonal record, BLOCK(2)+diagonal, BLOCK(3) SD CORR; 3 epsilons in $SIGMA BLOCK(3)'
+            f'{"; 4 etas in BLOCK(4)" if tier == "thorough" else ""}), the compartment transformations from '
+            f'{"every layout" if tier == "thorough" else "the BLOCK(3) layout"}, '
+            + ('all pairs of parameter transformations from every layout, pairs compartment x parameter transformation '
+               '(both orders) from the BLOCK(3) layout ' if tier == 'thorough' else
+               'pairs create / split joint distribution x parameter transformation (both orders) from the first 2 layouts ')
+            + f'[{len(rt_jobs)} in all]; written to disk and read back, compared '
             f'numerically at 3 points over all compartment numberings, reserved parameters ALAGn/Fn/Dn/Rn assigned '
             f'in the written $PK and RATE item of the written data compared with what the compartments of the model imply; printer: all {nexpr} distinct sympy '
             f'expressions from trees of depth <=2 over + - * / ** unary- exp log sqrt with operands WGT, AGE, '
